@@ -2,6 +2,13 @@
 import sys
 
 
+CONTROL_MUTANTS = [
+    "signview-tst", "fmt-width-short", "pair-order-far", "auxflag-sbb-drop-c", "boundary-contains-le", "ownmerge-cond-assume-c10",
+    "reset-drop-final", "span-top-width", "deepcopy-share-raw", "cksum-hex-256", "segimg-filesz-return", "psize-pack-tail",
+    "boundidx-sh2-fcnvsd", "addvertex-fastpath", "merge-early-return", "raise-open-narrow",
+]
+
+
 def run_controls():
     from .ispecmodel import SpecModel
 
@@ -26,6 +33,28 @@ def run_controls():
     keys = [k.value for k in d.keys]
     if len(keys) == len(set(keys)):
         print("CONTROL-FAIL R-DUPKEY"); bad += 1
+    # one breaking mutant per property, applied to a scratch copy of the tree: a rule whose expected report count is zero
+    # must still be able to fire today (positive control, ~15 s with 16 jobs)
+    try:
+        from concurrent.futures import ThreadPoolExecutor
+        from .mutants import MUTANTS
+        from .selftest import _run_one
+
+        muts = [m for m in MUTANTS if m[0] in CONTROL_MUTANTS]
+        if len(muts) != len(CONTROL_MUTANTS):
+            print("CONTROL-FAIL control mutants missing from the catalogue: %s" % sorted(set(CONTROL_MUTANTS) - {m[0] for m in muts}))
+            bad += 1
+        import os as _os
+
+        with ThreadPoolExecutor(max_workers=int(_os.environ.get("VERIF_JOBS", "16"))) as ex:
+            for name, pid, status, detail in ex.map(_run_one, muts):
+                if status != "ok":
+                    print("CONTROL-FAIL %s %s %s %s" % (pid, name, status, detail[:300]))
+                    bad += 1
+        print("controls: %d breaking mutants on scratch copies" % len(muts))
+    except Exception as e:
+        print("CONTROL-FAIL mutant controls could not run: %r" % (e,))
+        bad += 1
     try:
         from .controls_extra import run_extra
 
